@@ -98,7 +98,7 @@ func (r *run) conclude(ld *loaded, files []harnessFile, results []*interp.Harnes
 		if c.vio != nil {
 			switch {
 			case r.noReplay:
-				inconclusive = append(inconclusive, fmt.Sprintf("%s: candidate violation %q at %s not replayed (-no-replay)", c.Harness, c.vio.Msg, c.vio.Pos))
+				inconclusive = append(inconclusive, fmt.Sprintf("%s: candidate violation %q at %s not replayed (-no-replay) stack=%v", c.Harness, c.vio.Msg, c.vio.Pos, c.vio.Stack))
 			case n == nil || !n.Ran:
 				inconclusive = append(inconclusive, fmt.Sprintf("%s: candidate violation %q at %s: no native result", c.Harness, c.vio.Msg, c.vio.Pos))
 			case n.Failed || (n.Panicked && !n.ExpectPan):
@@ -254,6 +254,9 @@ func pkgNameOf(ld *loaded, harness string) string {
 func (r *run) buildReplayOverlay(ld *loaded, files []harnessFile, dir string) (overlayPath string, pkgPatterns []string, err error) {
 	repl := map[string]string{}
 	repl[filepath.Join(r.repo, "pkg", "verifrt", "verifrt.go")] = filepath.Join(r.verif, "rt", "verifrt.go")
+	for virt, real := range rtExtraFiles(r) {
+		repl[virt] = real
+	}
 	for _, f := range files {
 		repl[f.virt] = f.path
 	}
